@@ -49,7 +49,8 @@ class Controller:
         self.watchdog = watchdog
         self.queues = []
         self.events = []         # global, serialised event log written by wrappers
-        self.preempt_after_learn = False
+        self.t_progress = time.time()
+        self.known_threads = set(threading.enumerate())
 
     # -- participant side --------------------------------------------------------------------------------------------
     def me(self):
@@ -104,6 +105,10 @@ class Controller:
         return p
 
     # -- controller side ---------------------------------------------------------------------------------------------
+    def uncontrolled_alive(self):
+        mine = {p.ident for p in self.parts}
+        return any(t not in self.known_threads and t.ident not in mine and t.is_alive() for t in threading.enumerate())
+
     def enabled(self, op):
         kind = op[0]
         if kind == "get":
@@ -139,7 +144,11 @@ class Controller:
                     return
                 en = [p for p in live if self.enabled(p.pending)]
                 if not en:
+                    if self.uncontrolled_alive() and time.time() - self.t_progress < self.watchdog:
+                        self.cv.wait(0.005)   # an un-instrumented thread may still unblock somebody
+                        continue
                     raise Deadlock("; ".join(self.describe(p) for p in live))
+                self.t_progress = time.time()
                 d = len(self.trace)
                 if d < len(self.prefix):
                     i = self.prefix[d] % len(en)
@@ -183,10 +192,25 @@ class CQueue:
     def put(self, item, block=True, timeout=None):
         self.ctl.park(("put", self))
         self.items.append(item)
+        if self.ctl.me() is None:
+            with self.ctl.cv:
+                self.ctl.cv.notify_all()
 
     put_nowait = put
 
     def get(self, block=True, timeout=None):
+        if self.ctl.me() is None:
+            # a thread the harness does not control (e.g. created through an API we did not instrument): behave like
+            # a real blocking queue so that the exchange still works, only without schedule control
+            t0 = time.time()
+            while not self.items:
+                if not block or (timeout is not None and time.time() - t0 > timeout):
+                    raise _queue.Empty
+                time.sleep(0.0005)
+            with self.ctl.cv:
+                item = self.items.popleft()
+                self.ctl.cv.notify_all()
+            return item
         self.ctl.park(("get", self, block, timeout))
         if not self.items:
             raise _queue.Empty
@@ -282,3 +306,49 @@ def yielding_attr(ctl_getter, name):
         self.__dict__[slot] = v
 
     return property(fget, fset)
+
+
+_TARGETS = {}
+
+
+class substitute:
+    """Replace, in every loaded black_it.schedulers* module, the names bound to queue.Queue, the threading module,
+    threading.Thread and threading.Event by the controller's instrumented equivalents (restored on exit)."""
+
+    def __init__(self, ctl, prefix="black_it.schedulers"):
+        self.ctl, self.prefix, self.saved = ctl, prefix, []
+
+    def __enter__(self):
+        import sys
+
+        fake = self.ctl.threading_module()
+        make = {"Queue": self.ctl.Queue, "threading": fake, "queue": _FakeQueueModule(self.ctl), "Thread": fake.Thread,
+                "Event": fake.Event}
+        if self.prefix not in _TARGETS:
+            kinds = ((_queue.Queue, "Queue"), (_queue.SimpleQueue, "Queue"), (threading, "threading"), (_queue, "queue"),
+                     (threading.Thread, "Thread"), (threading.Event, "Event"))
+            found = []
+            for name, mod in list(sys.modules.items()):
+                if mod is None or not name.startswith(self.prefix):
+                    continue
+                for attr, val in list(vars(mod).items()):
+                    for obj, kind in kinds:
+                        if val is obj:
+                            found.append((mod, attr, kind))
+            _TARGETS[self.prefix] = found
+        for mod, attr, kind in _TARGETS[self.prefix]:
+            self.saved.append((mod, attr, getattr(mod, attr)))
+            setattr(mod, attr, make[kind])
+        return self
+
+    def __exit__(self, *exc):
+        for mod, attr, val in self.saved:
+            setattr(mod, attr, val)
+
+
+class _FakeQueueModule:
+    def __init__(self, ctl):
+        self.Queue = ctl.Queue
+        self.SimpleQueue = ctl.Queue
+        self.LifoQueue = _queue.LifoQueue
+        self.Empty, self.Full = _queue.Empty, _queue.Full
